@@ -43,7 +43,9 @@ type ChangelogEntry struct {
 	When      time.Time
 }
 
-const whenLayout = time.RFC1123Z // "Mon, 02 Jan 2006 15:04:05 -0700"
+/* like time.RFC1123Z, but the day of the month may have one digit or two
+ * (Policy: "the leading zero is optional"; `2` also reads " 2" and "02") */
+const whenLayout = "Mon, 2 Jan 2006 15:04:05 -0700"
 
 type ChangelogEntries []ChangelogEntry
 
